@@ -559,5 +559,112 @@ theorem Xf.normSq_apply_sub (t : Xf K) (h : t.DistValid) (p q : V3 K) :
     ((t.apply p).sub (t.apply q)).normSq = t.factor * t.factor * (p.sub q).normSq := by
   rw [Xf.apply_sub_apply t (Xf.distValid_affine t h), V3.normSq_eq_dot, Xf.dot_lin t h, V3.normSq_eq_dot]
 
+/-! ### `AxisPinch` -/
+
+/-- `AxisPinch.Apply` on the pinched coordinate. -/
+def pinch1 (powF : K → K) (lo hi v : K) : K :=
+  if v < lo ∨ hi < v then v
+  else
+    (if (v - (lo + hi) / 2) / ((hi - lo) / 2) < 0
+      then -(powF (-((v - (lo + hi) / 2) / ((hi - lo) / 2))))
+      else powF ((v - (lo + hi) / 2) / ((hi - lo) / 2))) * ((hi - lo) / 2) + (lo + hi) / 2
+
+theorem Pinch.apply_eq (powF : K → K) (a : Pinch K) (c : V3 K) :
+    a.apply powF c = c.set a.axis (pinch1 powF a.lo a.hi (c.get a.axis)) := by
+  unfold Pinch.apply pinch1
+  by_cases h : c.get a.axis < a.lo ∨ a.hi < c.get a.axis
+  · simp [h]
+  · by_cases hn : (c.get a.axis - (a.lo + a.hi) / 2) / ((a.hi - a.lo) / 2) < 0 <;> simp [h, hn]
+
+/-- `powF` behaves like `t ↦ t^p` (`p > 0`) on `[0,1]`: maps it into itself, vanishes only at 0. -/
+def PowLike (powF : K → K) : Prop :=
+  ∀ u, 0 ≤ u → u ≤ 1 → 0 ≤ powF u ∧ powF u ≤ 1 ∧ (0 < u → 0 < powF u)
+
+/-- the signed, normalised coordinate after the pinch -/
+theorem pinch1_spec (powF : K → K) (hp : PowLike powF) (lo hi v : K) (hlh : lo < hi) (h0 : lo ≤ v) (h1 : v ≤ hi) :
+    ∃ t t3 : K, t = (v - (lo + hi) / 2) / ((hi - lo) / 2) ∧ -1 ≤ t ∧ t ≤ 1 ∧
+      pinch1 powF lo hi v = t3 * ((hi - lo) / 2) + (lo + hi) / 2 ∧
+      ((t < 0 ∧ t3 = -powF (-t) ∧ t3 < 0) ∨ (0 ≤ t ∧ t3 = powF t ∧ 0 ≤ t3)) ∧ -1 ≤ t3 ∧ t3 ≤ 1 := by
+  have hs : 0 < (hi - lo) / 2 := by linarith
+  have hin : ¬ (v < lo ∨ hi < v) := by
+    rintro (h | h) <;> linarith
+  have ht0 : -1 ≤ (v - (lo + hi) / 2) / ((hi - lo) / 2) := by
+    rw [le_div_iff₀ hs]; linarith
+  have ht1 : (v - (lo + hi) / 2) / ((hi - lo) / 2) ≤ 1 := by
+    rw [div_le_iff₀ hs]; linarith
+  unfold pinch1
+  rw [if_neg hin]
+  generalize (v - (lo + hi) / 2) / ((hi - lo) / 2) = t at ht0 ht1 ⊢
+  by_cases hn : t < 0
+  · obtain ⟨a, b, c⟩ := hp (-t) (by linarith) (by linarith)
+    have hc := c (by linarith)
+    exact ⟨t, -powF (-t), rfl, ht0, ht1, by rw [if_pos hn], Or.inl ⟨hn, rfl, by linarith⟩, by linarith, by linarith⟩
+  · have hn' : 0 ≤ t := not_lt.mp hn
+    obtain ⟨a, b, c⟩ := hp t hn' ht1
+    exact ⟨t, powF t, rfl, ht0, ht1, by rw [if_neg hn], Or.inr ⟨hn', rfl, a⟩, by linarith, b⟩
+
+theorem pinch1_inv (powF powG : K → K) (hp : PowLike powF) (hg : ∀ u, 0 ≤ u → u ≤ 1 → powG (powF u) = u)
+    (lo hi v : K) (hlh : lo < hi) :
+    pinch1 powG lo hi (pinch1 powF lo hi v) = v := by
+  have fixed : ∀ (pw : K → K) (x : K), (x < lo ∨ hi < x) → pinch1 pw lo hi x = x := by
+    intro pw x hx; unfold pinch1; rw [if_pos hx]
+  by_cases hout : v < lo ∨ hi < v
+  · rw [fixed powF v hout, fixed powG v hout]
+  · have h0 : lo ≤ v := not_lt.mp (fun h => hout (Or.inl h))
+    have h1 : v ≤ hi := not_lt.mp (fun h => hout (Or.inr h))
+    have hs : 0 < (hi - lo) / 2 := by linarith
+    obtain ⟨t, t3, ht, ht0, ht1, hv', hcase, h30, h31⟩ := pinch1_spec powF hp lo hi v hlh h0 h1
+    have hvt : v = t * ((hi - lo) / 2) + (lo + hi) / 2 := by
+      rw [ht]; field_simp; ring
+    generalize pinch1 powF lo hi v = x at hv'
+    have hxlo : lo ≤ x := by rw [hv']; nlinarith
+    have hxhi : x ≤ hi := by rw [hv']; nlinarith
+    have hin' : ¬ (x < lo ∨ hi < x) := by
+      rintro (h | h) <;> linarith
+    have ht' : (x - (lo + hi) / 2) / ((hi - lo) / 2) = t3 := by
+      rw [hv']; field_simp; ring
+    unfold pinch1
+    rw [if_neg hin', ht']
+    rcases hcase with ⟨hneg, h3, h3neg⟩ | ⟨hpos, h3, h3pos⟩
+    · rw [if_pos h3neg, h3, neg_neg, hg (-t) (by linarith) (by linarith), neg_neg]
+      exact hvt.symm
+    · rw [if_neg (not_lt.mpr h3pos), h3, hg t hpos ht1]
+      exact hvt.symm
+
+theorem pinch1_mono (powF : K → K) (hp : PowLike powF)
+    (hm : ∀ u w, 0 ≤ u → u ≤ w → w ≤ 1 → powF u ≤ powF w) (lo hi : K) (hlh : lo < hi) {v w : K} (hvw : v ≤ w) :
+    pinch1 powF lo hi v ≤ pinch1 powF lo hi w := by
+  have hs : 0 < (hi - lo) / 2 := by linarith
+  -- values in range stay in range; out of range values are fixed
+  have range : ∀ x, lo ≤ x → x ≤ hi → lo ≤ pinch1 powF lo hi x ∧ pinch1 powF lo hi x ≤ hi := by
+    intro x hx0 hx1
+    obtain ⟨t, t3, _, _, _, hv', _, h30, h31⟩ := pinch1_spec powF hp lo hi x hlh hx0 hx1
+    rw [hv']; constructor <;> nlinarith
+  have fixed : ∀ x, (x < lo ∨ hi < x) → pinch1 powF lo hi x = x := by
+    intro x hx; unfold pinch1; rw [if_pos hx]
+  rcases lt_or_ge v lo with hv | hv
+  · rw [fixed v (Or.inl hv)]
+    rcases lt_or_ge w lo with hw | hw
+    · rw [fixed w (Or.inl hw)]; exact hvw
+    · rcases lt_or_ge hi w with hw' | hw'
+      · rw [fixed w (Or.inr hw')]; exact hvw
+      · linarith [(range w hw hw').1]
+  · rcases lt_or_ge hi v with hv' | hv'
+    · rw [fixed v (Or.inr hv'), fixed w (Or.inr (lt_of_lt_of_le hv' hvw))]; exact hvw
+    · rcases lt_or_ge hi w with hw' | hw'
+      · rw [fixed w (Or.inr hw')]; linarith [(range v hv hv').2]
+      · have hw : lo ≤ w := le_trans hv hvw
+        obtain ⟨t, t3, ht, ht0, ht1, hv1, hc, _, _⟩ := pinch1_spec powF hp lo hi v hlh hv hv'
+        obtain ⟨u, u3, hu, hu0, hu1, hw1, hd, _, _⟩ := pinch1_spec powF hp lo hi w hlh hw hw'
+        have htu : t ≤ u := by rw [ht, hu]; exact div_le_div_of_nonneg_right (by linarith) hs.le
+        rw [hv1, hw1]
+        have : t3 ≤ u3 := by
+          rcases hc with ⟨a1, a2, a3⟩ | ⟨a1, a2, a3⟩ <;> rcases hd with ⟨b1, b2, b3⟩ | ⟨b1, b2, b3⟩
+          · rw [a2, b2]; have := hm (-u) (-t) (by linarith) (by linarith) (by linarith); linarith
+          · linarith
+          · linarith
+          · rw [a2, b2]; exact hm t u a1 htu hu1
+        nlinarith
+
 end Ordered
 end M3d.Tf
